@@ -63,7 +63,10 @@ func (g c18graph) String() string {
 	return strconv.Itoa(g.n) + ";" + strings.Join(parts, "/")
 }
 
-type c18cfg struct{ hasInit, initErr, hasSvc []bool }
+type c18cfg struct {
+	hasInit, initErr, hasSvc []bool
+	opts                     []int // per module: 0 no option, 1 UserInvisibleModule, 2 UserInvisibleTargetableModule, 3 = 1 then 2, 4 = 2 then 1
+}
 
 func bits(b []bool) string {
 	var sb strings.Builder
@@ -81,6 +84,19 @@ func bits(b []bool) string {
 }
 func (c c18cfg) String() string {
 	return bits(c.hasInit) + ";" + bits(c.initErr) + ";" + bits(c.hasSvc)
+}
+
+// StringO also carries the RegisterModule options (C18.init lines)
+func (c c18cfg) StringO() string {
+	o := "-"
+	if len(c.opts) > 0 {
+		var sb strings.Builder
+		for _, x := range c.opts {
+			sb.WriteString(strconv.Itoa(x))
+		}
+		o = sb.String()
+	}
+	return c.String() + ";" + o
 }
 
 var errC18Init = errors.New("scripted init error")
@@ -120,7 +136,18 @@ func c18BuildL(logger log.Logger, n int, cfg c18cfg, calls [][]int, initLog *[]i
 				return nil, nil
 			}
 		}
-		mm.RegisterModule(c18Name(i), fn)
+		switch {
+		case len(cfg.opts) == 0 || cfg.opts[i] == 0:
+			mm.RegisterModule(c18Name(i), fn)
+		case cfg.opts[i] == 1:
+			mm.RegisterModule(c18Name(i), fn, modules.UserInvisibleModule)
+		case cfg.opts[i] == 2:
+			mm.RegisterModule(c18Name(i), fn, modules.UserInvisibleTargetableModule)
+		case cfg.opts[i] == 3:
+			mm.RegisterModule(c18Name(i), fn, modules.UserInvisibleModule, modules.UserInvisibleTargetableModule)
+		default:
+			mm.RegisterModule(c18Name(i), fn, modules.UserInvisibleTargetableModule, modules.UserInvisibleModule)
+		}
 	}
 	var res []string
 	for _, c := range calls {
@@ -184,7 +211,7 @@ func ints(xs []int) string {
 func c18InitCase(e *env, g c18graph, cfg c18cfg, targets []int, r *rng) {
 	calls := c18CallsFor(g, r)
 	ga := c18Applied(g.n, calls)
-	tr := newTrack("C18.init", ga.String()+";"+cfg.String())
+	tr := newTrack("C18.init", ga.String()+";"+cfg.StringO())
 	tr.step(ints(targets))
 	defer tr.done()
 	var initLog []int
@@ -192,7 +219,7 @@ func c18InitCase(e *env, g c18graph, cfg c18cfg, targets []int, r *rng) {
 	for _, x := range res {
 		if x != "ok" {
 			// an edge of a DAG was rejected: report it as an observation of its own
-			e.emit("C18.init", ga.String()+";"+cfg.String(), ints(targets), "-", "add-rejected:"+x, "-")
+			e.emit("C18.init", ga.String()+";"+cfg.StringO(), ints(targets), "-", "add-rejected:"+x, "-", "-")
 			return
 		}
 	}
@@ -201,22 +228,43 @@ func c18InitCase(e *env, g c18graph, cfg c18cfg, targets []int, r *rng) {
 		tn[i] = c18Name(t)
 	}
 	sm, err := mm.InitModuleServices(tn...)
+	// the error names the module: "unrecognised module name: mX" / "error initialising module: mX: <cause>"
 	result := "ok"
 	switch {
 	case err == nil:
-	case strings.HasPrefix(err.Error(), "unrecognised module name"):
-		result = "unrecognised"
-	case errors.Is(err, errC18Init):
-		result = "initerr"
+	case strings.HasPrefix(err.Error(), "unrecognised module name: "):
+		result = "unrecognised:" + strconv.Itoa(c18Idx(strings.TrimPrefix(err.Error(), "unrecognised module name: ")))
+	case errors.Is(err, errC18Init) && strings.HasPrefix(err.Error(), "error initialising module: "):
+		name := strings.SplitN(strings.TrimPrefix(err.Error(), "error initialising module: "), ":", 2)[0]
+		result = "initerr:" + strconv.Itoa(c18Idx(name))
 	default:
 		result = "other"
+	}
+	// visibility flags as the manager reports them
+	vis := mm.UserVisibleModuleNames()
+	sorted := "1"
+	if !sort.StringsAreSorted(vis) {
+		sorted = "0"
+	}
+	var visIdx []int
+	for _, v := range vis {
+		visIdx = append(visIdx, c18Idx(v))
+	}
+	sort.Ints(visIdx)
+	vb, tb := make([]bool, g.n), make([]bool, g.n)
+	for i := 0; i < g.n; i++ {
+		vb[i], tb[i] = mm.IsUserVisibleModule(c18Name(i)), mm.IsTargetableModule(c18Name(i))
+	}
+	flags := ints(visIdx) + ";" + bits(vb) + ";" + bits(tb) + ";" + sorted
+	if mm.IsUserVisibleModule("nosuch") || mm.IsTargetableModule("nosuch") || mm.IsModuleRegistered("nosuch") || (g.n > 0 && !mm.IsModuleRegistered(c18Name(0))) {
+		flags += ";unregistered-module-flags"
 	}
 	var keys []int
 	for k := range sm {
 		keys = append(keys, c18Idx(k))
 	}
 	sort.Ints(keys)
-	e.emit("C18.init", ga.String()+";"+cfg.String(), ints(targets), ints(initLog), result, ints(keys))
+	e.emit("C18.init", ga.String()+";"+cfg.StringO(), ints(targets), ints(initLog), result, ints(keys), flags)
 }
 
 // all labelled DAGs on n nodes: deps[i] ∋ j means i depends on j
@@ -301,7 +349,15 @@ func c18RandomDAG(r *rng, n int) c18graph {
 }
 
 func c18RandomCfg(r *rng, n int, allowErr bool) c18cfg {
-	c := c18cfg{make([]bool, n), make([]bool, n), make([]bool, n)}
+	c := c18cfg{hasInit: make([]bool, n), initErr: make([]bool, n), hasSvc: make([]bool, n)}
+	if r.chance(1, 2) {
+		c.opts = make([]int, n)
+		for i := range c.opts {
+			if r.chance(1, 2) {
+				c.opts[i] = r.intn(5)
+			}
+		}
+	}
 	full := r.chance(1, 3)
 	for i := 0; i < n; i++ {
 		c.hasInit[i] = full || r.chance(5, 6)
@@ -314,7 +370,7 @@ func c18RandomCfg(r *rng, n int, allowErr bool) c18cfg {
 }
 
 func c18FullCfg(n int) c18cfg {
-	c := c18cfg{make([]bool, n), make([]bool, n), make([]bool, n)}
+	c := c18cfg{hasInit: make([]bool, n), initErr: make([]bool, n), hasSvc: make([]bool, n)}
 	for i := 0; i < n; i++ {
 		c.hasInit[i], c.hasSvc[i] = true, true
 	}
@@ -572,21 +628,58 @@ func runC18(e *env) {
 				}
 			})
 		}
+		// (a') one init function fails, at every position: every DAG on <= 3 modules (4: sampled), all modules
+		//      targeted in ascending order, the failing module chosen in turn among all of them
+		for n := 1; n <= 4; n++ {
+			c18AllDAGs(n, func(g c18graph) {
+				if n == 4 && e.quick && r.intn(4) != 0 {
+					return
+				}
+				all := make([]int, n)
+				for i := range all {
+					all[i] = i
+				}
+				for f := 0; f < n; f++ {
+					cfg := c18FullCfg(n)
+					cfg.initErr[f] = true
+					c18InitCase(e, g, cfg, all, r)
+					c18InitCase(e, g, cfg, []int{n - 1 - f%n}, r)
+				}
+			})
+		}
 		// (b) random DAGs up to 12 modules, random targets (with repeats / unknown names), modules without
 		//     init function or without service, init errors
 		nb := 3000 * e.scale
 		for i := 0; i < nb; i++ {
 			n := 1 + r.intn(12)
 			g := c18RandomDAG(r, n)
-			cfg := c18RandomCfg(r, n, true)
+			cfg := c18RandomCfg(r, n, false)
 			nt := 1 + r.intn(3)
 			var targets []int
 			for j := 0; j < nt; j++ {
 				t := r.intn(n)
-				if r.chance(1, 40) {
+				if r.chance(1, 25) {
 					t = n + 1
 				}
 				targets = append(targets, t)
+			}
+			if r.chance(1, 3) {
+				// one init function fails: a module inside what the targets need (or, rarely, outside)
+				var needed []int
+				for _, t := range targets {
+					if t < n {
+						needed = append(needed, t)
+						for d := range c18Reach(g.deps, t) {
+							needed = append(needed, d)
+						}
+					}
+				}
+				sort.Ints(needed)
+				if len(needed) > 0 && !r.chance(1, 8) {
+					cfg.initErr[needed[r.intn(len(needed))]] = true
+				} else {
+					cfg.initErr[r.intn(n)] = true
+				}
 			}
 			c18InitCase(e, g, cfg, targets, r)
 		}
